@@ -299,10 +299,12 @@ def shrink(line):
 
 LEVEL_TEXT = ('Lean 4 theorems relating Model.Blake (the hand-written mirror of crysp/blake.py on Model.Bits/Model.Padding) to Spec.Blake (BLAKE '
               'submission) and Spec.Blake2 (RFC 7693): regenerated tables and constants equal the specification, the G / compression functions refine '
-              'the specification for all words, the per-block counter and final-flag rules hold for every message length; the model is tied to the '
+              'the specification for all words, the per-block counter and final-flag rules hold for every message length, and END TO END blake_refines '
+              '(every BLAKE size, salt, message and bit length; over C09\'s blocks_concat / bitcnt_at_yield for the blake scheme) and blake2_refines '
+              '(every message, digest length and parameter block in range): the call of the model returns the specified digest; the model is tied to the '
               'current source by the translator (tables, IVs, constants, rotation amounts, G schedule read from the live module and its AST) and by a '
               'boundary-directed correspondence stream that also evaluates hashlib.blake2b/blake2s on the real code\'s output.')
 LEVEL_NOTE = ('Trusted: Lean kernel; axioms ⊆ {propext, Classical.choice, Quot.sound}; extract.py/runcheck.py/props/C11.py; Spec.Blake rests on the '
               'submission text and the four-size known answers only (no BLAKE-1 oracle in the image); Spec.Blake2 is cross-checked against hashlib. '
-              'Theorems named …_partial state less than the property (see the comment above each); list: evidence/C11.json coverage.theorems.')
+              'No theorem of this property is partial; list: evidence/C11.json coverage.theorems.')
 TECHNIQUE = 'Lean 4 proof (refinement by word-level simulation, list induction, kernel enumeration of complete tables) + correspondence check'
